@@ -335,7 +335,10 @@ func vpProcess(addr string, ctx context.Context, cmd redis.Cmder) error {
 	case protocol.Internal.MoveFragment:
 		s.moveFragmentCommandHandler(conn, rcmd)
 	default:
-		return errors.New("ERR unknown command '" + name + "'")
+		// the routing table's internal commands (partition length query, routing-table push)
+		if !s.rt.VerifHandle(name, conn, rcmd) {
+			return errors.New("ERR unknown command '" + name + "'")
+		}
 	}
 	if cl.drop > 0 {
 		cl.drop--
@@ -392,4 +395,56 @@ func vpSetReply(cmd redis.Cmder, conn *vpRConn) error {
 		panic("vpSetReply: unsupported command type")
 	}
 	return nil
+}
+
+// vpAttachRouting gives every member a real routing table state: membership view, consistent-hash ring with
+// harness-chosen positions, and the loopback client for its RPCs. rot selects one of the ring layouts.
+func (cl *vpClusterT) vpAttachRouting(rot int) {
+	n := len(cl.members)
+	pos := map[string]uint64{}
+	for i, m := range cl.members {
+		slot := uint64((i+rot)%n) * 10
+		pos[m.member.Name+"0"] = slot + 5 // virtual node
+		pos[m.member.Name] = slot + 6     // member key (orders the replica owners)
+	}
+	for p := uint64(0); p < cl.parts; p++ {
+		pos[string([]byte{byte(p), 0, 0, 0, 0, 0, 0, 0})] = (p%uint64(n))*10 + 1
+	}
+	ring := routingtable.VerifRingHasher{Pos: pos}
+	var live []discovery.Member
+	for _, m := range cl.members {
+		live = append(live, m.member)
+	}
+	for _, m := range cl.members {
+		m.svc.rt.VerifAttach(live, ring, m.svc.client, m.svc.log)
+	}
+}
+
+// vpCoordinator: the oldest member that is up.
+func (cl *vpClusterT) vpCoordinator() *vpMember {
+	var c *vpMember
+	for _, m := range cl.members {
+		if !m.down && (c == nil || m.member.Birthdate < c.member.Birthdate) {
+			c = m
+		}
+	}
+	return c
+}
+
+// vpFail stops a member: it no longer answers, the survivors' member lists report it gone (the real cluster-event
+// handler runs on each survivor), and the coordinator recomputes and pushes the routing table.
+func (cl *vpClusterT) vpFail(f int) {
+	cl.members[f].down = true
+	var still []discovery.Member
+	for _, m := range cl.members {
+		if !m.down {
+			still = append(still, m.member)
+		}
+	}
+	for _, m := range cl.members {
+		if !m.down {
+			m.svc.rt.VerifMemberLeft(cl.members[f].member, still)
+		}
+	}
+	cl.vpCoordinator().svc.rt.VerifUpdateRouting()
 }
